@@ -799,7 +799,7 @@ fn run(ctx: &mut Ctx) {
         ctx.add_stat("exhaustive_history_max_len", maxlen as u64);
     }
     // Part A2: random histories on larger graphs
-    let nh = tier.pick(300u64, 12_000u64) / ctx.nshards as u64 + 1;
+    let nh = tier.pickn(300u64, 12_000u64) / ctx.nshards as u64 + 1;
     for i in 0..nh {
         let mut rng = Rng::keyed(seed, "c15-rand", ctx.shard as u64, i);
         let proj = Project::generate(&mut rng, 4);
@@ -820,7 +820,7 @@ fn run(ctx: &mut Ctx) {
         ctx.case(&tag.clone(), |c| run_history(c, proj, &ops, &mut rng, &scratch, &tag));
     }
     // Part B: artifact fault enumeration
-    let nf = tier.pick(16u64, 160u64) / ctx.nshards as u64 + 1;
+    let nf = tier.pickn(16u64, 160u64) / ctx.nshards as u64 + 1;
     let max_leaves = tier.pick(60usize, 100_000usize);
     for i in 0..nf {
         let mut rng = Rng::keyed(seed, "c15-fault", ctx.shard as u64, i);
